@@ -71,6 +71,74 @@ PROPS = {
         "level_note": "Trusted: clvmr (oracle values), harness; model = code on the cases run.",
         "technique": "Lean 4 executable model of full validation as the prescription for the helpers + differential correspondence",
     },
+    "C13": {
+        "extractors": ["streamable", "panicsites"],
+        "harness": "C13",
+        "theorems": [
+            "ChiaModel.C13.roundtrip", "ChiaModel.C13.canonical", "ChiaModel.C13.trusted_codec", "ChiaModel.C13.encode_injective",
+            "ChiaModel.C13.hash_is_sha_of_encoding", "ChiaModel.C13.encodeForHash_eq_encode", "ChiaModel.C13.encodeForHash_pos",
+            "ChiaModel.C13.trusted_agrees", "ChiaModel.C13.from_bytes_iff", "ChiaModel.C13.from_bytes_to_bytes",
+            "ChiaModel.C13.to_bytes_from_bytes", "ChiaModel.C13.descriptors_closed", "ChiaModel.C13.generated_types_codec",
+            "ChiaModel.C13.clvm_scan_contract",
+        ],
+        "gen_theorems": ["ChiaModel.C13.descriptors_closed", "ChiaModel.C13.generated_types_codec"],
+        "open": [],
+        "trivial": r"^(err|bad-type)",
+        "level": "proof",
+        "rule": "every concrete Streamable type found by the translator (structs, enums, hand-written codecs, BLS elements, primitives, combinator samples): "
+                "200 (quick) / 20 000 (thorough) values per type produced as BYTES by a descriptor-driven generator that is independent of the crates' stream() "
+                "(integer boundary values, valid multi-byte UTF-8, back-reference CLVM serialisations, valid and infinity BLS points, version-1 and version-2 proofs of space "
+                "from /repo's quality-string vectors, both FullBlock generator formats, all four packed-option prefixes), each parsed by the real from_bytes / from_bytes_unchecked, "
+                "re-encoded and hashed; every one-byte prefix (bool, Option, packed options, version prefixes, enum discriminants) and the first and last byte of every u32 length prefix "
+                "set to each of {0,1,2,3,0x80,0xff}; truncation at every offset of small values; appended bytes. non-trivial = distinct accepted input",
+        "level_text": "Proof: for every type descriptor (by induction on the descriptor universe, mutually with field lists), every value and every byte string: "
+                      "decode(encode v ++ r) = (v, r) for well-formed v; whatever the decoder accepts re-encodes to exactly the consumed bytes and is well-formed (one encoding per value, "
+                      "encode injective); update_digest feeds exactly the prescribed pre-image (the encoding, with the proof replaced by the quality-string commitment inside version-2 "
+                      "proofs of space) and panics exactly when that pre-image does not exist; the trusted decoder agrees with the untrusted one wherever the latter accepts; from_bytes = parse + "
+                      "whole input consumed. The ~136 struct/enum descriptors are regenerated from the Rust source on every run (field lists in declaration order, discriminant lists, "
+                      "the item order of the hand-written codecs checked against parse/stream/update_digest) and the generic theorems are instantiated for them; "
+                      "the model is tied to the code by correspondence on every type.",
+        "level_note": "Trusted: Lean kernel + 3 standard axioms; translator (descriptors cross-checked by running every generated descriptor against the real type); implementation = model only on "
+                      "the cases run; blst point validity and the chia_pos2 quality string are oracle answers shipped per case; the clvmr serialised-length scan is an executable model compared on "
+                      "every Program, and its contract (prefix stability, trusted scan follows the validating scan, length >= 1) is PROVED for that model (clvm_scan_contract); SHA-256 streaming (update a; update b = update (a++b)) of chia-sha2 is "
+                      "observed (hash() compared with the model's sha256 of the concatenation on every accepted case).",
+        "trusted": ["blst G1/G2 validity and chia_pos2 quality strings are oracle answers computed by the harness with the real libraries (per case, `o=` entries)",
+                    "OracleContract (serialised-length scan reads only the bytes it reports; trusted scan accepts what the validating scan accepts; length >= 1) is a hypothesis of the generic theorems "
+                    "and is proved for the executable scan model used by the driver (clvm_scan_contract); that model = clvmr only on the Program cases run "
+                    "(the allocator's 62.5 M pair limit of clvmr is not modelled)"],
+        "technique": "Lean 4 proofs by mutual structural induction over a descriptor universe (nested inductive) built from higher-order codec combinators; translator + differential correspondence",
+    },
+    "C14": {
+        "extractors": ["streamable", "panicsites"],
+        "harness": "C14",
+        "theorems": [
+            "ChiaModel.C14.decode_total", "ChiaModel.C14.from_bytes_total", "ChiaModel.C14.trailing_rejected", "ChiaModel.C14.missing_rejected",
+            "ChiaModel.C14.no_unit_vec", "ChiaModel.C14.post_ops_partial", "ChiaModel.C14.witness_decodes_and_digest_panics",
+            "ChiaModel.C14.post_ops_full_false", "ChiaModel.C14.panic_sites_reviewed", "ChiaModel.C14.reservation_bound",
+            "ChiaModel.C14.alloc_bound", "ChiaModel.C14.elements_bounded", "ChiaModel.C14.generated_alloc_bound",
+        ],
+        "gen_theorems": ["ChiaModel.C14.no_unit_vec", "ChiaModel.C14.panic_sites_reviewed", "ChiaModel.C14.generated_alloc_bound"],
+        "open": [],
+        "trivial": r"^(bad-type)",
+        "level": "proof",
+        "rule": "all Streamable types x {from_bytes, from_bytes_unchecked}, each call in a worker process under catch_unwind with a counting global allocator: random bytes of assorted lengths "
+                "(uniform and 0/1/2/0xff-biased), valid encodings and 4-12 random mutations of each (byte flips, prefix values, insertions, deletions, truncations), every u32 length prefix "
+                "set to {0,1,2^16,2^24,2^31,2^32-1} with the body left as is and with the body cut to 3 bytes, every one-byte prefix set to {0,1,2,3,0x80,0xff}, nested vectors of options, "
+                "10^5 x `ff` (open) and 10^5 x `ff` + (10^5+1) x `80` (closed) in the first Program field of every type that has one; on success to_bytes, hash, == are run as well. "
+                "Allocation class small iff peak <= K*len + slack (K, slack per type in alloc_classes.txt). non-trivial = every case (the observable is the absence of PANIC/BIG/ABORT)",
+        "level_text": "Proof (for the model, whose panic points are explicit): for every descriptor, trust mode and byte string the decoder returns a value or an error and consumes a prefix; "
+                      "from_bytes rejects trailing bytes and every proper prefix of a valid encoding; bytes reserved ahead of parsing are at most allocFactor(t) * |input| + vecDepth(t) * 2 MiB "
+                      "(2 MiB cap per open vector header, elements parsed bounded by input length) and no generated descriptor has a zero-width vector element; on a decoded value re-encoding succeeds, "
+                      "and update_digest can panic only at quality_string().expect for a version-2 proof of space without quality string - the full statement (hash never panics) is refuted by a "
+                      "kernel-checked 154-byte witness that is replayed on the real code on every run (KNOWN-FINDING). Every panic site of the anchored sources is extracted on every run and must "
+                      "equal the reviewed list. Real panics, allocation and termination of the Rust code are observed by the correspondence, not proved.",
+        "level_note": "Trusted: Lean kernel + 3 standard axioms; translator; harness (catch_unwind, counting allocator, worker processes turn stack overflow / allocation failure / hang into ABORT / HANG lines); "
+                      "implementation = model only on the cases run. Memory safety, stack depth of derived Drop, real allocation and time are observed, not proved; "
+                      "memSize in the model is an approximation of size_of (only the cap arithmetic matters to the bound).",
+        "trusted": ["oracle answers (blst, chia_pos2) shipped per case; OracleContract hypothesis as in C13",
+                    "real panics / peak allocation / termination are runtime observations of the harness, not theorems"],
+        "technique": "Lean 4 proofs over a model with explicit panic branches and a pre-allocation counter; kernel-checked negation witness; differential correspondence under catch_unwind with a counting allocator in worker processes",
+    },
     "C17": {
         "extractors": ["precomputed"],
         "harness": "C17",
